@@ -227,7 +227,7 @@ impl Exec {
                 out.push(json!({"ev":"Hostile","cls":cls,"w":w,"n":dgs.len(),"len":total_len,"panic":m.panic.is_some(),"msg":m.panic.unwrap_or_default(),"us":m.us as u64,"alloc":m.alloc as u64,"died":""}));
             }
             RAct::Take { max } => {
-                let res = self.rig.slots[0].datareader.take(*max, ReadCondition::any());
+                let res = self.rig.slots[0].dr().take(*max, ReadCondition::any());
                 match res {
                     Ok(v) => {
                         let got: Vec<Value> = v
